@@ -5,11 +5,11 @@ from vlib import *
 import core
 
 
-def execute(prop, tier, seed, sc, topo):
+def execute(prop, tier, seed, sc, topo, kinds=""):
     open(sc.path("topo.json"), "w").write(topo)
     n = NCPU
     files = [sc.path("pp%d" % i) for i in range(n)]
-    pmap(lambda i: run_harness(["pair-probe", "-topo", sc.path("topo.json"), "-out", files[i], "-shard", str(i), "-shards", str(n)], timeout=3000), list(range(n)))
+    pmap(lambda i: run_harness(["pair-probe", "-topo", sc.path("topo.json"), "-out", files[i], "-shard", str(i), "-shards", str(n), "-kinds", kinds], timeout=3000), list(range(n)))
     tf = sc.path("pairs_all")
     with open(tf, "w") as f:
         for x in files:
@@ -21,7 +21,7 @@ def execute(prop, tier, seed, sc, topo):
     bad = printed(out, "BAD")[0]
     bad = list(bad.values()) if isinstance(bad, dict) else bad
     stat = printed(out, "STAT")[0]
-    if stat["parked"] < 40:
+    if stat["parked"] < (40 if not kinds else 10):
         raise Inconclusive("only %d pair probes reached their hook point" % stat["parked"])
     tl = open(tf).read().splitlines()
     viol, seen = 0, set()
